@@ -12,7 +12,10 @@ Search    : the property evaluated directly on the tools for every fault positio
             write/read/trunc/open/fsync, kinds ENOSPC/EIO/EINTR-then-error/short-then-error), for every
             allocation made by project code (ASan build, -include vf_alloc.h), for compressor failures
             in the workers, and for truncated inputs.
-The allocation sequence is not modelled; the two parts are reported separately in the evidence."""
+The allocation sequence of the TOOLS is not modelled; the two parts are reported separately in the evidence.
+Containers (session 3, props/C13/ualloc.py): the allocation sites and failure paths of lib/util/src/{array,
+            hash_table,rbtree,str_table}.c ARE modelled (coq/UtilAlloc) and tied by an exact operation-sequence
+            differential under the k-th-allocation-fails shim for every k (h_utilalloc.c / driver_ualloc.ml)."""
 import hashlib
 import json
 import os
@@ -29,6 +32,10 @@ from vlib import build as B
 from vlib import core
 
 HERE = os.path.dirname(os.path.abspath(__file__))
+import sys                # noqa: E402
+if HERE not in sys.path:
+    sys.path.insert(0, HERE)
+import ualloc as UA       # noqa: E402  (containers under allocation failure: coq/UtilAlloc models vs lib/util/src)
 LEVEL = "proof"
 NONE64 = 0xFFFFFFFFFFFFFFFF
 IO_CLASSES = ("open", "write", "read", "trunc", "fsync")
@@ -65,7 +72,12 @@ def build_all():
 
 
 def setup():
-    build_all()
+    plain, shim, asan, drv = build_all()
+    try:
+        UA.build(B.build("asan"))
+        core.build_model_driver("C13ualloc", "ExtractC13Util.v", os.path.join(HERE, "driver_ualloc.ml"))
+    except Exception:          # reported by run()
+        pass
 
 
 # ----------------------------------------------------------------------------------------------
@@ -1333,6 +1345,8 @@ def run(ctx):
         "alignment of fault positions through the call log",
         "props/C13/driver.ml (s-expression reader, event printer)",
         "ASan/UBSan verdicts of the allocation-fault build; gcc -include renaming of malloc/calloc/realloc/strdup/strndup in project sources only",
+        "props/C13/h_utilalloc.c (allocation wrappers: call counter, k-th call returns NULL, sequence numbers = the models' allocation ids), "
+        "props/C13/driver_ualloc.ml, props/C13/ualloc.py (generators, abstract-value reading of the dumps), props/C13/h_rbpool.c",
     ]
     ctx.assumptions += [
         "model granularity: one library-level I/O primitive = one outcome (the EINTR / short-count retry loops of file.c, ostream.c, "
@@ -1340,7 +1354,9 @@ def run(ctx):
         "the thread pool returns every submitted item (no deadlock after a worker failure): DESIGN F01 is C09's; a hang shows up here as comp:*:hang",
         "worker failures are modelled at dequeue time (serial-pool timing); the threaded pool can expose the status to an earlier submit",
         "close() results are ignored by design of sqfs_native_file_close (void); close faults are outside the property's quantifier and not asserted",
-        "allocation faults are enumerated on the real tools, the allocation sequence is not modelled (theorems cover I/O and stage-call plumbing only)",
+        "allocation faults of the TOOLS are enumerated on the real tools, their allocation sequence is not modelled (tool-level theorems cover "
+        "I/O and stage-call plumbing only); the allocation sites of the four lib/util containers are modelled (coq/UtilAlloc): calloc-variant of "
+        "rbtree.c (NO_CUSTOM_ALLOC), one shared oracle stream per run, element size > 0, fewer than 2^30 entries per hash table",
     ]
     stats = new_stats()
     seed = ctx.seed
@@ -1369,6 +1385,10 @@ def run(ctx):
             return ["enospc", "short"] if case.name in ("gen-dir-rel", "tar-j1", "sqfs2tar") else ["eio", "eintr"]
         return ["enospc", "eio", "eintr", "short", "zero", "persist"]
 
+    if rep is not None and rep.get("kind") in ("ualloc", "ualloc-pool"):
+        ustats = UA.run_leg(ctx, B.build("asan"), only=rep.get("case"))
+        ctx.coverage["containers_alloc_part"] = ustats
+        return
     if rep is not None and rep.get("kind") == "cwd-probe":
         cwd_probe(ctx, plain, shim, root, stats)
         fill_coverage(ctx, stats, cases)
@@ -1401,6 +1421,15 @@ def run(ctx):
         return
 
     cwd_probe(ctx, plain, shim, root, stats)
+    # containers under allocation failure (coq/UtilAlloc): exact tie for every allocation position + model-free oracle
+    try:
+        ustats = UA.run_leg(ctx, B.build("asan"), seed=seed)
+    except Exception as e:        # a harness that does not compile against the working tree is a finding, not a crash of the check
+        ustats = dict(error=str(e)[-600:])
+        ctx.violation("ualloc-tie:harness", "props/C13/h_utilalloc.c / h_rbpool.c do not build against the working tree "
+                      "(lib/util/src containers changed shape): %s" % str(e)[-400:], dict(kind="ualloc-build"), no_input=True)
+    ctx.coverage["containers_alloc_part"] = ustats
+    ctx.log("containers under allocation failure: %s" % ustats)
     all_cases = []
     seeds = [seed] if quick else [seed, seed + 1000, seed + 2000]
     for si, iseed in enumerate(seeds):
@@ -1465,19 +1494,28 @@ def fill_coverage(ctx, stats, cases):
     cov["evaluations"] = stats["io_runs"] + stats["alloc_runs"] + stats["comp_runs"] + stats["trunc_runs"]
     cov["distinct_nontrivial"] = stats["io_reached"] + (stats["alloc_runs"] - stats["alloc_not_reached"]) + stats["comp_runs"]
     cov["traces_validated_against_impl"] = stats["traces_ok"]
+    ua = cov.get("containers_alloc_part") or {}
+    if isinstance(ua.get("cases"), int):
+        # container operation sequences under allocation failure, each compared line by line with the extracted model
+        cov["evaluations"] += ua["cases"]
+        cov["distinct_nontrivial"] += ua.get("faults_hit", 0)
+        cov["traces_validated_against_impl"] += ua["cases"] - sum((ua.get("known") or {}).values())
     cov["exhaustive"] = False
     cov["rule"] = ("for each of %d tool invocations (%s) built from a seeded input tree / archive / image (seed %d): "
                    "every position k of every I/O call class (open, write/pwrite, read/pread, ftruncate, fsync) of the logged "
                    "fault-free run x the fault kinds of the tier; every (quick: up to 260 sampled) allocation made by project code "
                    "returns NULL once (ASan+UBSan build); every deflate call fails once (packers, gzip); truncated archives/images. "
-                   "non-trivial = the injected fault was reached" % (len(cases), ", ".join(sorted(set(c.name for c in cases))), ctx.seed))
+                   "non-trivial = the injected fault was reached; plus the lib/util containers: generated operation sequences x every single failing "
+                   "allocation call (sampled above 14 per sequence in the quick tier) x random sets of failing calls x every-rehash-fails, "
+                   "compared with the extracted allocation-aware models" % (len(cases), ", ".join(sorted(set(c.name for c in cases))), ctx.seed))
     cov["io_part"] = dict(runs=stats["io_runs"], fault_reached=stats["io_reached"], model_vs_tool_runs=stats["tie_runs"],
                           model_vs_tool_disagreements=stats["tie_diffs"], calls_per_case=stats["calls"],
                           violations=stats["io_violations"])
     cov["alloc_part"] = dict(runs=stats["alloc_runs"], fault_reached=stats["alloc_runs"] - stats["alloc_not_reached"],
                              allocations_per_case=stats["alloc_counts"], distinct_sites=len(stats["alloc_sites"]),
                              violations=stats["alloc_violations"],
-                             note="not covered by the theorems: enumerated on the implementation only")
+                             note="tool level: not covered by theorems, enumerated on the implementation only; the four lib/util "
+                                  "containers under allocation failure are covered by coq/UtilAlloc (containers_alloc_part)")
     cov["comp_part"] = dict(runs=stats["comp_runs"], violations=stats["comp_violations"])
     cov["close_observed"] = dict(runs=stats["close_runs"], exit0_although_close_failed=stats["close_ignored"],
                                  note="close() is outside the property's quantifier; not asserted")
